@@ -6,6 +6,7 @@ import (
 	"fmt"
 	"os"
 	"os/exec"
+	"path/filepath"
 	"sort"
 	"strconv"
 	"strings"
@@ -50,7 +51,8 @@ func sfChildRun(env *Env) error {
 	defer fp.Close()
 	devnull, _ := os.OpenFile(os.DevNull, os.O_WRONLY, 0)
 	os.Stdout = devnull // lal logs to stdout; stderr is kept for the crash dump
-	ce := newSfEnv()
+	ce := newSfEnv(filepath.Dir(env.Out))
+	defer ce.cleanup()
 	return ReadScenarios(env.In, func(raw json.RawMessage) error {
 		var sc sfScenario
 		if err := json.Unmarshal(raw, &sc); err != nil {
